@@ -210,6 +210,8 @@ int main(void) {
 	}
 	TM_LOG(EV_PHASE, 2, 0, 0, 0);
 	if (gate) tpt_msg_send(tp_thread_get(g_tp, gate_dst), NULL, 0, gate_cb, NULL);
+	if (gate && shutdown_behind_gate == 3) /* every worker is gated: nobody reads the virtual thread's queue */
+		for (i = 0; i < pool; i++) if (i != gate_dst) tpt_msg_send(tp_thread_get(g_tp, i), NULL, 0, gate_cb, NULL);
 
 	/* pool senders: thread (pool-1-j) for j < n_pool, so that thread 0 (possibly never started) and the gated one are avoided by the generator */
 	for (i = 0; i < n_pool; i++) {
@@ -258,9 +260,14 @@ int main(void) {
 			for (k = 20; k < 40; k++) LATE_SEND(k, gate_dst, d0);
 			sem_post(&g_gate_sem);
 		} else if (mode == 3 && !timeout) {
+			if (tm_wait_ge(&g_gate_in, pool, 30000)) timeout = 1;
 			for (k = 0; k < 40; k++) LATE_SEND(k, (uint32_t)pool, dv);
 			tp_shutdown(g_tp);
-			sem_post(&g_gate_sem);
+			for (k = 0; k < pool; k++) sem_post(&g_gate_sem);
+			if (g_park_in_stop) { /* the workers leave their loops together: all are inside the stop hook before one goes on */
+				if (tm_wait_ge(&g_in_stop, pool, 30000)) timeout = 1;
+				for (k = 0; k < pool; k++) sem_post(&g_stop_gate);
+			}
 		} else if (mode == 5 && !timeout) {
 			/* the scenario senders have filled the gated worker's queue until EAGAIN: the stop message does not fit, the
 			 * worker is stopped directly and must still deliver everything that was accepted (more than one read batch) */
